@@ -375,6 +375,19 @@ def run(ctx, model):
             pipeline("AnyFrom", grp, ", ".join(map(repr, grp)), of_chars(grp), False)
             if len(grp) != 3 or ctx.tier == "thorough" or grp == sorted(grp):
                 pipeline("AnyButFrom", grp, ", ".join(map(repr, grp)), of_chars(grp), True)
+    # runs of consecutive characters that end / start at a character the writer escapes, together with one more
+    # member elsewhere (four or more members: the run is folded into a range whose endpoint is spelled escaped)
+    probes = ["5", "A", "Z", "a", "~", "!"]
+    for w in sorted(W):
+        for run in ([chr(ord(w) - 2), chr(ord(w) - 1), w], [w, chr(ord(w) + 1), chr(ord(w) + 2)]):
+            extras = [x for x in probes + sorted(W) if x not in run]
+            if ctx.tier == "quick":
+                extras = [x for i, x in enumerate(extras) if (i + ord(w)) % 2 == 0 or x in ("5", "Z")]
+            for x in extras:
+                for grp in ([*run, x], [x, *reversed(run)]):
+                    pipeline("AnyFrom", grp, ", ".join(map(repr, grp)), of_chars(grp), False)
+                if x in ("5", "Z") or ctx.tier == "thorough":
+                    pipeline("AnyButFrom", [*run, x], ", ".join(map(repr, [*run, x])), of_chars([*run, x]), True)
     some_pairs = [(a, b) for a in specials for b in specials if ord(a) < ord(b)][::3] + [("a", "b"), ("a", "c"), ("0", "9"), ("A", "z"), ("\x00", "\x7f"), ("a", "é"), ("一", "\U0010ffff")]
     for a, b in some_pairs:
         pipeline("AnyBetween", [a, b], f"{a!r}, {b!r}", [(ord(a), ord(b))], False)
